@@ -1,38 +1,195 @@
-"""Channels, goroutines, range/next (map iteration is demonic). Filled in incrementally."""
+"""Channels, goroutines, wait groups, range/next.
+
+Sequential reading of the concurrency primitives (DESIGN.md section 1.2):
+  * a receive havocs a well-typed message and requires a non-nil channel (a receive on a nil channel blocks
+    for ever); `v, ok := <-ch` / `range ch` gets an arbitrary `ok`;
+  * a send requires a non-nil, not yet closed channel and counts in the ghost `ch_sent`;
+  * close requires non-nil and not closed, sets the ghost flag;
+  * `go f(...)` does not execute f (f is verified on its own worker contract); whatever f may write is havocked;
+  * map iteration is demonic: every Next picks an arbitrary key not visited before (ghost set per Range).
+Ghost integers: ch_sent, ch_recv, ch_closed (count of close calls), wg_add, wg_done, wg_wait, go_count.
+"""
 import z3
-from .world import OutOfSubset
+from .world import OutOfSubset, LValue, FuncVal
+
+I = z3.IntSort()
+B = z3.BoolSort()
+
+GHOST_INTS = ('ch_sent', 'ch_recv', 'ch_closed', 'wg_add', 'wg_done', 'wg_wait', 'go_count')
+
+
+def gk(name):
+    return ('ghost', name, I)
+
+
+def gk_arr(name):
+    return ('ghost', name, z3.ArraySort(I, I), 'chan')
+
+
+def bump(X, name, by=1):
+    X.heap.set(gk(name), X.heap.get(gk(name)) + by)
+
+
+def bump_at(X, name, ch):
+    k = gk_arr(name)
+    a = X.heap.get(k)
+    X.heap.set(k, z3.Store(a, ch, a[ch] + 1))
+
+
+def chan_modset(V, x):
+    return {gk(n) for n in GHOST_INTS} | {gk_arr('sent_on'), gk_arr('closed_on'), gk_arr('recv_on')}
 
 
 def recv(X, ins):
-    raise OutOfSubset('channel receive')
-
-
-def do_range(X, ins):
-    raise OutOfSubset('range over map/string')
-
-
-def do_next(X, ins):
-    raise OutOfSubset('next')
-
-
-def do_go(X, ins):
-    raise OutOfSubset('go statement')
+    w = X.w
+    ch = X.term(ins['x'])
+    X.oblige('nilchan', ch != 0, ins.get('pos', ''), text='receive from a nil channel blocks forever')
+    uk, e = w.prog.under(ins['x']['type'])
+    el = e['elem']
+    msg = w.fresh('msg', w.sort(el))
+    X.assume_typed(msg, el)
+    if ins.get('commaok'):
+        ok = w.fresh('recvok', B)
+        X.heap.set(gk('ch_recv'), X.heap.get(gk('ch_recv')) + z3.If(ok, 1, 0))
+        k = gk_arr('recv_on')
+        a = X.heap.get(k)
+        X.heap.set(k, z3.Store(a, ch, a[ch] + z3.If(ok, 1, 0)))
+        X.env[ins['name']] = [z3.If(ok, msg, w.zero(el)), ok]
+    else:
+        bump(X, 'ch_recv')
+        bump_at(X, 'recv_on', ch)
+        X.env[ins['name']] = msg
 
 
 def do_send(X, ins):
-    raise OutOfSubset('channel send')
-
-
-def do_makechan(X, ins):
-    raise OutOfSubset('make(chan)')
+    ch = X.term(ins['chan'])
+    v = X.val(ins['x'])
+    X.oblige('nilchan', ch != 0, ins.get('pos', ''), text='send on a nil channel blocks forever')
+    X.oblige('sendclosed', X.heap.get(gk_arr('closed_on'))[ch] == 0, ins.get('pos', ''), text='send on a closed channel panics')
+    bump(X, 'ch_sent')
+    bump_at(X, 'sent_on', ch)
+    # the last message sent is visible to contracts as ghost(last_sent_<field>) through the hook below
+    X.last_sent = v
 
 
 def do_close(X, ins):
-    raise OutOfSubset('close(chan)')
+    ch = X.term(ins['args'][0])
+    X.oblige('nilchan', ch != 0, ins.get('pos', ''), text='close of nil channel panics')
+    X.oblige('closeclosed', X.heap.get(gk_arr('closed_on'))[ch] == 0, ins.get('pos', ''), text='close of closed channel panics')
+    bump(X, 'ch_closed')
+    bump_at(X, 'closed_on', ch)
 
 
+def do_makechan(X, ins):
+    r = X.alloc_id('chan')
+    for nm in ('sent_on', 'closed_on', 'recv_on'):
+        k = gk_arr(nm)
+        X.heap.set(k, z3.Store(X.heap.get(k), r, z3.IntVal(0)))
+    X.env[ins['name']] = r
+
+
+def do_go(X, ins):
+    """spawn: the body is not executed here; its possible writes are havocked"""
+    from .modset import call_modset
+    bump(X, 'go_count')
+    try:
+        mod = call_modset(X.V, X.fn, ins, [X.fnkey])
+    except OutOfSubset:
+        raise
+    for key in sorted(mod, key=str):
+        nv = X.V.fresh_heap_const(key, X.tag + 'go')
+        if key[0] == 'alloc':
+            X.hyp(nv >= X.heap.get(key))
+        X.heap.set(key, nv)
+    # captured variables of a closure may be written by the goroutine at any later time
+    X.V.notes.append('effects of spawned goroutines on the spawning function after the go statement are havocked once, at the spawn point')
+
+
+# ---------------------------------------------------------------------- range / next
+def do_range(X, ins):
+    w = X.w
+    xo = ins['x']
+    uk, e = w.prog.under(xo['type'])
+    if e['kind'] == 'map':
+        m = X.term(xo)
+        ks = w.sort(e['key'])
+        X.range_count = getattr(X, 'range_count', 0) + 1
+        key = ('ghost', 'visited_%d' % X.range_count, z3.ArraySort(ks, B))
+        X.heap.set(key, z3.K(ks, z3.BoolVal(False)))
+        X.env[ins['name']] = ('maprange', m, xo['type'], key)
+        X.V.range_keys = getattr(X.V, 'range_keys', {})
+        X.V.range_keys[X.range_count] = key
+        return
+    if e['kind'] == 'basic':
+        s = X.term(xo)
+        key = ('ghost', 'strpos_%s' % ins['name'], I)
+        X.heap.set(key, z3.IntVal(0))
+        X.V.range_keys = getattr(X.V, 'range_keys', {})
+        X.V.range_keys['s' + ins['name']] = key
+        X.env[ins['name']] = ('strrange', s, key)
+        return
+    raise OutOfSubset('range over ' + xo['type'])
+
+
+def do_next(X, ins):
+    w = X.w
+    it = X.val(ins['iter'])
+    if not isinstance(it, tuple):
+        raise OutOfSubset('next on unknown iterator')
+    if it[0] == 'maprange':
+        _, m, mt, key = it
+        uk, e = w.prog.under(mt)
+        ks, vs = w.sort(e['key']), w.sort(e['elem'])
+        dom = X.heap.get(('mdom', mt))
+        val = X.heap.get(('mval', mt))
+        visited = X.heap.get(key)
+        ok = w.fresh('nextok', B)
+        k = w.fresh('nextkey', ks)
+        kq = z3.Const('nk_q', ks)
+        # ok: some unvisited key of the domain is delivered; !ok: every key of the domain has been visited
+        X.hyp(z3.Implies(ok, z3.And(m != 0, dom[m][k], z3.Not(visited[k]))))
+        X.hyp(z3.Implies(z3.Not(ok), z3.Or(m == 0, z3.ForAll([kq], z3.Implies(dom[m][kq], visited[kq]), patterns=[dom[m][kq]]))))
+        X.heap.set(key, z3.If(ok, z3.Store(visited, k, z3.BoolVal(True)), visited))
+        v = w.fresh('nextval', vs)
+        X.hyp(z3.Implies(ok, v == val[m][k]))
+        X.assume_typed(v, e['elem'])
+        X.assume_typed(k, e['key'])
+        X.env[ins['name']] = [ok, k, v]
+        X.V.notes.append('map iteration order is demonic (every order is considered)')
+        return
+    if it[0] == 'strrange':
+        _, s, key = it
+        pos = X.heap.get(key)
+        n = w.strlen(s)
+        ok = pos < n
+        width = w.fresh('runew', I)
+        X.hyp(z3.And(width >= 1, width <= 4, z3.Implies(ok, pos + width <= n)))
+        r = w.fresh('rune', I)
+        X.hyp(z3.And(r >= 0, r <= 0x10FFFF))
+        X.heap.set(key, z3.If(ok, pos + width, pos))
+        X.env[ins['name']] = [ok, pos, r]
+        return
+    raise OutOfSubset('next')
+
+
+def range_modset(V, fn, x):
+    out = set()
+    return out
+
+
+# ---------------------------------------------------------------------- sync
 def lock_event(X, ins, argv):
     """ghost lock log: count of lock/unlock events per kind, used by C11 contracts"""
     name = ins['static'].split(').')[-1]
     key = ('ghost', 'lock_' + name, z3.IntSort())
     X.heap.set(key, X.heap.get(key) + 1)
+
+
+def wg_event(X, ins, argv):
+    name = ins['static'].split(').')[-1]
+    if name == 'Add':
+        bump(X, 'wg_add', argv[1])
+    elif name == 'Done':
+        bump(X, 'wg_done')
+    elif name == 'Wait':
+        bump(X, 'wg_wait')
